@@ -36,6 +36,7 @@ func runC02(r *Run) {
 	r.Rule("C02.4", "latch: the select case that receives from a per-round channel and records an action stores nil to that channel field on every continuing path; the channels become non-nil only in RoundLifecycle.Reset")
 	r.Rule("C02.5", "WMC: the recording functions are called only from the event loop's cases")
 	r.Rule("C02.6", "RoundLifecycle.Reset is called only with (H+1, 0), (H, R+1) or the start-up position, so a (height, round) is entered at most once")
+	r.Rule("C02.10", "start-up suppression of a second proposal: once our own proposed header is found in the mirror's view or in the action store, the strategy is entered only with a nil proposal channel")
 	r.Rule("C02.7", "CONF: a *RoundLifecycle is never passed to a go statement or sent on a channel (single owner goroutine)")
 
 	specs := []signSpec{
@@ -180,6 +181,7 @@ func runC02(r *Run) {
 
 	// ---- C02.8 the shipped action store refuses and remembers (restart safety rests on it)
 	freshActionsChannel(r, "C02.9")
+	startupProposalSuppression(r, "C02.10")
 	r.Rule("C02.8", "the shipped ActionStore refuses a second action of a kind per (height, round) and a changed key, and keeps every action already recorded for the round when another is added (same rules as C16.2)")
 	actionStoreRules(r, "C02.8")
 
